@@ -322,7 +322,8 @@ def construct_visual_description(circuit: IDeclarativeCircuit, custom_channel_or
         channel_indices=channel_indices,
         channel_label_map=custom_channel_map,
         channel_states=channel_states,
-        operations=operations,
+        # Operations that occupy no channel (e.g. barrier over an empty qubit list) have no row to be drawn on
+        operations=[operation for operation in operations if len(operation.channel_identifiers) > 0],
         composite_operations=circuit.composite_operations,
     )
 
